@@ -182,6 +182,42 @@ def run_case(spec):
         C["output_missing"] = 1
     sims = [s for s in tm.stages if s["name"] == "Simulating"]
     ups = [u for u in sims[0]["updates"] if not u.get("failed")] if sims else []
+    if sol is not None and exc is None and not sol.saved_on_disk:
+        # a solution that only lives in memory (temp output), written out by the user and read back: the one frame it keeps
+        # carries the final label, and ALL per-step records and frame times come back with it
+        import shutil
+        import tempfile
+
+        import tdgl
+
+        d_ = tempfile.mkdtemp(prefix="vt_c05m_")
+        try:
+            p_ = os.path.join(d_, "kept.h5")
+            C["memory_only_reload_checks"] = 1
+            try:
+                sol.to_hdf5(p_)
+                ld = tdgl.Solution.from_hdf5(p_)
+                rec_dt = [float(x) for x in np.asarray(ld.dynamics.dt)] if ld.dynamics is not None else None
+                used_dt = [float(u["dt"]) for u in ups]
+                label = (int(ld.tdgl_data.state["step"]), float(ld.tdgl_data.state["time"]))
+                want_label = (int(sol.tdgl_data.state["step"]), float(sol.tdgl_data.state["time"]))
+                t_l, t_s = ld.times, sol.times
+                if rec_dt != used_dt:
+                    V.append({"kind": "per_step_records_lost_on_reload", "mechanism": "memory_only_solution_reload_loses_records",
+                              "detail": {"recorded_steps_after_reload": None if rec_dt is None else len(rec_dt), "steps_run": len(used_dt)}})
+                if label != want_label or label[0] != len(used_dt):
+                    V.append({"kind": "frame_label_wrong_on_reload", "mechanism": "memory_only_solution_reload_label", "detail": {"label": label, "expected": want_label, "steps_run": len(used_dt)}})
+                if (t_l is None) != (t_s is None) or (t_l is not None and not np.array_equal(np.asarray(t_l), np.asarray(t_s))):
+                    V.append({"kind": "times_differ_on_reload", "mechanism": "memory_only_solution_reload_times",
+                              "detail": {"times_after_reload": None if t_l is None else np.asarray(t_l).tolist()[:6], "times_before": None if t_s is None else np.asarray(t_s).tolist()[:6]}})
+                for f_ in ("mu", "theta", "screening_iterations"):
+                    x_, y_ = getattr(sol.dynamics, f_), getattr(ld.dynamics, f_)
+                    if (x_ is None) != (y_ is None) or (x_ is not None and (np.asarray(x_).shape != np.asarray(y_).shape or not np.array_equal(x_, y_))):
+                        V.append({"kind": "per_step_records_lost_on_reload", "mechanism": "memory_only_solution_reload_loses_records", "detail": {"column": f_}})
+            except Exception as e_:  # noqa: BLE001
+                V.append({"kind": "memory_only_solution_unreadable", "mechanism": "memory_only_solution_reload_raises", "detail": {"error": repr(e_)[:200]}})
+        finally:
+            shutil.rmtree(d_, ignore_errors=True)
     from ..ref import runspec
 
     N_obs = runspec.final_step([u["dt"] for u in ups], o.solve_time)
